@@ -1019,6 +1019,19 @@ var rR23s = RuleRef{Name: "R23s", Doc: "per-connection selection: no code reacha
 				if fa, ok := st.Addr.(*ssa.FieldAddr); ok && namedOf(fa.X.Type()) == "Manager" {
 					bad = append(bad, c.pos(st.Pos())+": "+fnName(fn)+" stores Manager."+fieldName(fa))
 				}
+				// ... or to a slot of a table the Manager holds (the database table: a swap re-numbers the databases under
+				// connections that cached one of them)
+				if ia, ok := st.Addr.(*ssa.IndexAddr); ok {
+					x := ia.X
+					if sl, ok := x.(*ssa.Slice); ok {
+						x = sl.X
+					}
+					if u, ok := x.(*ssa.UnOp); ok && u.Op == token.MUL {
+						if fa, ok := u.X.(*ssa.FieldAddr); ok && namedOf(fa.X.Type()) == "Manager" {
+							bad = append(bad, c.pos(st.Pos())+": "+fnName(fn)+" stores a slot of Manager."+fieldName(fa))
+						}
+					}
+				}
 			}
 		}
 	}
